@@ -52,6 +52,9 @@ def signature(rec):
         if m:
             return "%s in %s (%s)" % (m.group(1), m.group(4).strip(), os.path.basename(m.group(2)))
         return re.sub(r"0x[0-9a-f]+", "0x?", d)[:160]
+    if cls == "deadlock" and "never terminates" in d:
+        m = re.search(r"blocks for ever on mutex (\w+).*?the child was in: ([\w:~]+)", d)
+        return "child of a failed exec never terminates (blocked on %s in %s)" % (m.group(1), m.group(2)) if m else "child of a failed exec never terminates"
     if cls == "deadlock":
         return "deadlock: " + re.sub(r"T\d+:", "", d).strip()[:100]
     return cls
